@@ -394,7 +394,7 @@ func c24FieldName(i int, c *c24Case) string {
 }
 
 func TestC24_Segments(t *testing.T) {
-	vk.Check(t, 12000, func(rt *rapid.T) {
+	vk.Check(t, 25000, func(rt *rapid.T) {
 		c := c24DrawCase(rt)
 		in := c24KernelForm(c)
 
@@ -529,7 +529,7 @@ func TestC24_Segments(t *testing.T) {
 // TestC24_NonGSOChecksum: a GSO_NONE packet with NEEDS_CSUM goes through the same read path and must
 // come out as one packet with a finished, valid L4 checksum.
 func TestC24_NonGSOChecksum(t *testing.T) {
-	vk.Check(t, 3000, func(rt *rapid.T) {
+	vk.Check(t, 5000, func(rt *rapid.T) {
 		c := c24DrawCase(rt)
 		if c.payLen > 9000 {
 			c.payLen %= 9001
@@ -566,7 +566,7 @@ func TestC24_NonGSOChecksum(t *testing.T) {
 // (each documented as refused in CheckValid / CorrectHdrLen / protoFromGSOType) must be refused by
 // the read path - never yielded - and nothing in the path may panic on them.
 func TestC24_Rejects(t *testing.T) {
-	vk.Check(t, 6000, func(rt *rapid.T) {
+	vk.Check(t, 10000, func(rt *rapid.T) {
 		c := c24DrawCase(rt)
 		if c.payLen > 4000 { // keep this half cheap
 			c.clean = c.clean[:c.hdrLen+c.payLen%4001]
